@@ -9,7 +9,7 @@
   "flags": "create,fix,trim,update",
   "rerun": 1
  },
- "detail": "C08: rerun #1 with the same flags modified files: ['M test_zoo_hash.py']\n--- before\n+++ after\n@@ -13 +13 @@\n-    assert {frozenset({'a'}), frozenset({'b'}), frozenset({'c'})} == snapshot({frozenset({\"a\"}), frozenset({\"c\"}), frozenset({\"b\"})})\n+    assert {frozenset({'a'}), frozenset({'b'}), frozenset({'c'})} == snapshot({frozenset({\"c\"}), frozenset({\"a\"}), frozenset({\"b\"})})\n@@ -17 +17 @@\n-    assert {frozenset({'a', 'b'}), frozenset({'c'}), frozenset()} == snapshot({frozenset(), frozenset({\"c\"}), frozenset({\"a\", \"b\"})})\n+    assert {frozenset({'a', 'b'}), frozenset({'c'}), frozenset()} == snapshot({frozenset(), frozenset({\"a\", \"b\"}), frozenset({\"c\"})})\n\nrerun #1: report still shows ['Update snapshots']\n--- output (tail)\n==================================== PASSES ====================================\n------------ generated xml file: /tmp/bsess-out-jlakk0wg/junit.xml -------------\n=========================== short test summary info ============================\nPASSED test_zoo_hash.py::test_v0\nPASSED test_zoo_hash.py::test_v1\nPASSED test_zoo_hash.py::test_v2\nPASSED test_zoo_hash.py::test_v3\nPASSED test_zoo_hash.py::test_v4\nPASSED test_zoo_hash.py::test_v5\nPASSED test_zoo_hash.py::test_v6\nPASSED test_zoo_hash.py::test_v7\nPASSED test_zoo_hash.py::test_v8\nPASSED test_zoo_hash.py::test_v9\nPASSED test_zoo_hash.py::test_ops\n============================== 11 passed in 1.81s =============================="
+ "detail": "C08: rerun #1 with the same flags modified files: ['M test_zoo_hash.py']\n--- before\n+++ after\n@@ -13 +13 @@\n-    assert {frozenset({'a'}), frozenset({'b'}), frozenset({'c'})} == snapshot({frozenset({\"a\"}), frozenset({\"c\"}), frozenset({\"b\"})})\n+    assert {frozenset({'a'}), frozenset({'b'}), frozenset({'c'})} == snapshot({frozenset({\"c\"}), frozenset({\"a\"}), frozenset({\"b\"})})\n@@ -17 +17 @@\n-    assert {frozenset({'a', 'b'}), frozenset({'c'}), frozenset()} == snapshot({frozenset(), frozenset({\"c\"}), frozenset({\"a\", \"b\"})})\n+    assert {frozenset({'a', 'b'}), frozenset({'c'}), frozenset()} == snapshot({frozenset(), frozenset({\"a\", \"b\"}), frozenset({\"c\"})})\n\nrerun #1: report still shows ['Update snapshots']\n--- output (tail)\n==================================== PASSES ====================================\n------------ generated xml file: /tmp/bsess-out-h24k7kpb/junit.xml -------------\n=========================== short test summary info ============================\nPASSED test_zoo_hash.py::test_v0\nPASSED test_zoo_hash.py::test_v1\nPASSED test_zoo_hash.py::test_v2\nPASSED test_zoo_hash.py::test_v3\nPASSED test_zoo_hash.py::test_v4\nPASSED test_zoo_hash.py::test_v5\nPASSED test_zoo_hash.py::test_v6\nPASSED test_zoo_hash.py::test_v7\nPASSED test_zoo_hash.py::test_v8\nPASSED test_zoo_hash.py::test_v9\nPASSED test_zoo_hash.py::test_ops\n============================== 11 passed in 1.40s =============================="
 }
 """
 
